@@ -67,6 +67,16 @@ class _CircuitAttacher(object):
         real_port = real_addr.port
         self._circuit_targets[(real_host, real_port)] = (circuit, d)
 
+    def remove_endpoint(self, d):
+        """
+        Forget the endpoint whose add_endpoint() returned ``d``: its
+        stream is not going to show up any more (a later, unrelated
+        connection may come from the same local address).
+        """
+        for k, (circuit, target_d) in list(self._circuit_targets.items()):
+            if target_d is d:
+                del self._circuit_targets[k]
+
     def attach_stream_failure(self, stream, fail):
         """
         IStreamAttacher API
@@ -153,7 +163,11 @@ class TorCircuitEndpoint(object):
         yield self._circuit.when_built()
         connect_d = self._target_endpoint.connect(protocol_factory)
         attached_d = attacher.add_endpoint(self._target_endpoint, self._circuit)
-        proto = yield connect_d
+        try:
+            proto = yield connect_d
+        except Exception:
+            attacher.remove_endpoint(attached_d)
+            raise
         yield attached_d
         return proto
 
